@@ -74,6 +74,11 @@ fn failing(rng: &mut Rng, runtime: bool) -> (&'static str, &'static str, &'stati
             ("\"s\" ", "neg", "", "type"),
             ("{ } 1 ", "nth", "", "type"),
             ("1 ", "I", " drop", "loop-underflow"),
+            // the failing word opens a control structure (its instruction is completed later, by the closing word)
+            ("\"s\" ", "if", " 1 drop then", "type"),
+            ("7 ", "if", " 1 drop else 2 drop then", "type"),
+            ("\"s\" 5 ", "do", " I drop loop", "type"),
+            ("begin 5 ", "while", " 1 drop repeat", "type"),
         ])
     } else {
         *rng.pick(&[
@@ -128,7 +133,15 @@ impl C17 {
             obs.see("other_errors", &format!("{}:{}!={}", scenario, err_class(e), ex.class));
             return true;
         }
-        let loc = match xs.last_err_location() {
+        let located = catch(|| (xs.last_err_location(), xs.pretty_error()));
+        let (loc0, pretty) = match located {
+            Ok(x) => x,
+            Err((m, l)) => {
+                self.fail(obs, idx, format!("panic-while-locating:{}", scenario), log, format!("{}: computing the location panicked: {} at {}", show_err(e), m, normalise_loc(&l)));
+                return false;
+            }
+        };
+        let loc = match loc0 {
             Some(l) => l,
             None => {
                 self.fail(obs, idx, format!("no-location:{}", scenario), log, format!("{} has no location", show_err(e)));
@@ -152,7 +165,7 @@ impl C17 {
                 wrong.push(format!("quoted line {:?} expected {:?}", loc.whole_line.as_str(), line_text));
             }
             // the rendered message names source:line:col (1-based) and quotes the line
-            if let Some(p) = xs.pretty_error() {
+            if let Some(p) = pretty {
                 let head = format!("{}:{}:{}", ex.source_name, line + 1, col + 1);
                 if !p.contains(&head) || !p.contains(&line_text) {
                     wrong.push(format!("pretty_error {:?} lacks {:?} or the quoted line", truncate(&p, 200), head));
@@ -196,9 +209,9 @@ impl Monitor for C17 {
         let mut rng = Rng::for_case("C17", self.seed, idx);
         let mut xs = self.boot.clone();
         let mut log: Vec<String> = vec![];
-        let scenario = *rng.pick(&["top", "loop", "if", "called-word-same-source", "called-word-earlier-source", "deep-call-chain", "meta-block", "word-in-meta", "included-file", "after-include", "injected-text", "identical-sources", "second-error", "definition-body-build-error", "file-included-twice", "resumed-run"]);
+        let scenario = *rng.pick(&["top", "loop", "if", "called-word-same-source", "called-word-earlier-source", "deep-call-chain", "meta-block", "word-in-meta", "included-file", "after-include", "injected-text", "identical-sources", "second-error", "definition-body-build-error", "file-included-twice", "resumed-run", "immediate-word-fails-during-a-later-build"]);
         let runtime_ok = !matches!(scenario, "definition-body-build-error");
-        let runtime = runtime_ok && (rng.chance(2, 3) || matches!(scenario, "file-included-twice" | "resumed-run"));
+        let runtime = runtime_ok && (rng.chance(2, 3) || matches!(scenario, "file-included-twice" | "resumed-run" | "immediate-word-fails-during-a-later-build"));
         let (mut pre, mut tok, mut post, mut class) = failing(&mut rng, runtime);
         let wrapped = !matches!(scenario, "top" | "after-include" | "injected-text" | "identical-sources" | "second-error" | "included-file" | "resumed-run");
         while (wrapped && matches!(tok, ";" | "then" | "loop" | "endcase")) || (scenario == "loop" && tok == "I") {
@@ -237,8 +250,18 @@ impl Monitor for C17 {
                 s.plant(tok);
                 s.push(post);
                 s.push(close);
-                s.push(sep);
-                filler(&mut rng, &mut s, 1);
+                match rng.below(4) {
+                    // the failing token's line is the last line of the text and has no line end
+                    0 => obs.count("token_on_last_line_without_line_end"),
+                    1 => {
+                        s.push(rng.pick_str(&[" \\ caf\u{e9} \u{221e}", "  \\ \u{4e16}", " \\( \u{e9} \\)\u{e9}\u{4e16}"]));
+                        obs.count("token_on_last_line_without_line_end");
+                    }
+                    _ => {
+                        s.push(sep);
+                        filler(&mut rng, &mut s, 1);
+                    }
+                }
                 let name = format!("<buffer#{}>", nsrc(&xs));
                 log.push(s.text.clone());
                 res = catch(|| xs.eval(&s.text));
@@ -382,6 +405,30 @@ impl Monitor for C17 {
                 let (off, t) = f.planted.clone().unwrap();
                 ex = Expect { source_name: path.clone(), text: f.text.clone(), offset: off, token: t, class };
             }
+            "immediate-word-fails-during-a-later-build" => {
+                // a user-defined immediate word runs while a later source is being built and fails there: the failure is
+                // inside the word's definition, not where it is used
+                s.push(&format!(": imm-{} immediate {}", idx % 100, pre));
+                s.plant(tok);
+                s.push(post);
+                s.push(" ;");
+                let name = format!("<buffer#{}>", nsrc(&xs));
+                log.push(s.text.clone());
+                if !matches!(catch(|| xs.eval(&s.text)), Ok(Ok(()))) {
+                    obs.count("setup_failed");
+                    return;
+                }
+                let mut c = Src::default();
+                let nfill = 1 + rng.below(2);
+                filler(&mut rng, &mut c, nfill);
+                c.push(&format!("imm-{}", idx % 100));
+                c.push(rng.pick_str(&["", " 1 drop", "\n2 drop"]));
+                log.push(c.text.clone());
+                let by_eval = rng.flip();
+                res = catch(|| if by_eval { xs.eval(&c.text) } else { xs.compile(&c.text) });
+                let (off, t) = s.planted.clone().unwrap();
+                ex = Expect { source_name: name, text: s.text.clone(), offset: off, token: t, class };
+            }
             "resumed-run" => {
                 // debugger style: the program stops with an underflow, the host repairs the stack and calls run() again;
                 // the second failure is reported with its own location
@@ -477,10 +524,10 @@ impl Monitor for C17 {
         }
         let res = match res {
             Ok(r) => r,
-            Err(_) => {
-                obs.skipped += 1;
-                obs.count("skipped:panic(C08)");
-                return;
+            Err((m, l)) => {
+                // the planted failure is an ordinary error; a crash on the way to reporting it (while the location is
+                // being worked out, for instance) leaves the user without the location this property promises
+                return self.fail(obs, idx, format!("panic-instead-of-located-error:{}", scenario), &log, format!("expected {} at {:?}; the call panicked: {} at {}", ex.class, ex.token, m, normalise_loc(&l)));
             }
         };
         if !self.check(obs, idx, &xs, &res, &ex, &log, scenario) {
